@@ -1542,37 +1542,146 @@ impl<T: PPGEvaluatorStrategy> PPGEvaluator<T> {
     }
 }
 
-/// the assumed contract of the part -> owning job map (R8a) as one predicate
-spec fn multi_parts_ok(pm: &VerifPartsMap, jobs: Seq<NodeInfo>) -> bool {
-    &&& forall|p: Seq<char>| #![trigger pm.owner(p)] pm.owner(p) is Some ==> exists|i: int| 0 <= i < jobs.len()
-            && #[trigger] jobs[i].job_id@ == pm.owner(p).unwrap() && parts(jobs[i].job_id@).contains(p)
-    &&& forall|i: int, p: Seq<char>| 0 <= i < jobs.len() && #[trigger] parts(jobs[i].job_id@).contains(p) ==> pm.owner(p) is Some
+/// what the part -> owning job map built at the top of new_history contains, for the first `upto` jobs
+spec fn parts_map_ok<'a>(pm: Map<&'a str, String>, jobs: Seq<NodeInfo>, upto: int) -> bool {
+    &&& forall|k: &'a str| #[trigger] pm.contains_key(k) ==> exists|i: int| 0 <= i < upto
+            && #[trigger] jobs[i].job_id@ == pm[k]@ && parts(jobs[i].job_id@).contains(k@)
+    &&& forall|i: int, p: Seq<char>| 0 <= i < upto && #[trigger] parts(jobs[i].job_id@).contains(p)
+            ==> exists|k: &'a str| #![trigger pm.contains_key(k)] k@ == p && pm.contains_key(k)
 }
 
-proof fn lemma_superseded_by_owner(jobs: Seq<NodeInfo>, m: Map<String, usize>, pm: &VerifPartsMap, id: Seq<char>, p: Seq<char>)
-    requires multi_parts_ok(pm, jobs), parts(id).contains(p), pm.owner(p) is Some, pm.owner(p).unwrap() != id,
+/// inside the construction loop: jobs < i0 done, of job i0 the parts ps[0..upto) done
+spec fn parts_map_ok_partial<'a>(pm: Map<&'a str, String>, jobs: Seq<NodeInfo>, i0: int, ps: Seq<&str>, upto: int) -> bool {
+    &&& forall|k: &'a str| #[trigger] pm.contains_key(k) ==> exists|i: int| 0 <= i <= i0
+            && #[trigger] jobs[i].job_id@ == pm[k]@ && parts(jobs[i].job_id@).contains(k@)
+    &&& forall|i: int, p: Seq<char>| 0 <= i < i0 && #[trigger] parts(jobs[i].job_id@).contains(p)
+            ==> exists|k: &'a str| #![trigger pm.contains_key(k)] k@ == p && pm.contains_key(k)
+    &&& forall|q: int| 0 <= q < upto ==> exists|k: &'a str| #![trigger pm.contains_key(k)] k@ == (#[trigger] ps[q])@ && pm.contains_key(k)
+}
+
+proof fn lemma_parts_map_insert_part<'a>(pm1: Map<&'a str, String>, pm2: Map<&'a str, String>, jobs: Seq<NodeInfo>, i0: int,
+    ps: Seq<&str>, idx: int, part: &'a str)
+    requires
+        parts_map_ok_partial(pm1, jobs, i0, ps, idx), 0 <= i0 < jobs.len(), 0 <= idx < ps.len(), part@ == ps[idx]@,
+        parts(jobs[i0].job_id@).contains(part@),
+        pm2.dom() =~= pm1.dom().insert(part), pm2[part]@ == jobs[i0].job_id@,
+        forall|k: &'a str| k != part && #[trigger] pm1.contains_key(k) ==> pm2[k] == pm1[k],
+    ensures parts_map_ok_partial(pm2, jobs, i0, ps, idx + 1),
+{
+    broadcast use group_verif_strref_axioms;
+    assert forall|k: &'a str| #[trigger] pm2.contains_key(k) implies exists|i: int| 0 <= i <= i0
+            && #[trigger] jobs[i].job_id@ == pm2[k]@ && parts(jobs[i].job_id@).contains(k@) by {
+        if k == part {
+            assert(jobs[i0].job_id@ == pm2[k]@ && parts(jobs[i0].job_id@).contains(k@));
+        } else {
+            assert(pm1.contains_key(k));
+            let i = choose|i: int| 0 <= i <= i0 && #[trigger] jobs[i].job_id@ == pm1[k]@ && parts(jobs[i].job_id@).contains(k@);
+            assert(jobs[i].job_id@ == pm2[k]@);
+        }
+    }
+    assert forall|i: int, p: Seq<char>| 0 <= i < i0 && #[trigger] parts(jobs[i].job_id@).contains(p)
+            implies exists|k: &'a str| #![trigger pm2.contains_key(k)] k@ == p && pm2.contains_key(k) by {
+        let k = choose|k: &'a str| #![trigger pm1.contains_key(k)] k@ == p && pm1.contains_key(k);
+        assert(pm2.contains_key(k));
+    }
+    assert forall|q: int| 0 <= q < idx + 1 implies exists|k: &'a str| #![trigger pm2.contains_key(k)] k@ == (#[trigger] ps[q])@ && pm2.contains_key(k) by {
+        if q < idx {
+            let k = choose|k: &'a str| #![trigger pm1.contains_key(k)] k@ == ps[q]@ && pm1.contains_key(k);
+            assert(pm2.contains_key(k));
+        } else {
+            assert(pm2.contains_key(part));
+        }
+    }
+}
+
+/// the `:::` branch: every part of job i0 has been inserted
+proof fn lemma_parts_map_multi_done<'a>(pm: Map<&'a str, String>, jobs: Seq<NodeInfo>, i0: int, ps: Seq<&str>)
+    requires
+        parts_map_ok_partial(pm, jobs, i0, ps, ps.len() as int), 0 <= i0 < jobs.len(),
+        forall|p: Seq<char>| #![trigger parts(jobs[i0].job_id@).contains(p)] parts(jobs[i0].job_id@).contains(p) <==> exists|q: int| 0 <= q < ps.len() && (#[trigger] ps[q])@ == p,
+    ensures parts_map_ok(pm, jobs, i0 + 1),
+{
+    assert forall|k: &'a str| #[trigger] pm.contains_key(k) implies exists|i: int| 0 <= i < i0 + 1
+            && #[trigger] jobs[i].job_id@ == pm[k]@ && parts(jobs[i].job_id@).contains(k@) by {
+        let i = choose|i: int| 0 <= i <= i0 && #[trigger] jobs[i].job_id@ == pm[k]@ && parts(jobs[i].job_id@).contains(k@);
+        assert(0 <= i < i0 + 1);
+    }
+    assert forall|i: int, p: Seq<char>| 0 <= i < i0 + 1 && #[trigger] parts(jobs[i].job_id@).contains(p)
+            implies exists|k: &'a str| #![trigger pm.contains_key(k)] k@ == p && pm.contains_key(k) by {
+        if i == i0 {
+            let q = choose|q: int| 0 <= q < ps.len() && (#[trigger] ps[q])@ == p;
+            let k = choose|k: &'a str| #![trigger pm.contains_key(k)] k@ == ps[q]@ && pm.contains_key(k);
+        }
+    }
+}
+
+/// the plain branch: the id itself is its only part
+proof fn lemma_parts_map_single_done<'a>(pm0: Map<&'a str, String>, pm2: Map<&'a str, String>, jobs: Seq<NodeInfo>, i0: int, key: &'a str)
+    requires
+        parts_map_ok(pm0, jobs, i0), 0 <= i0 < jobs.len(), key@ == jobs[i0].job_id@, !str_contains_multi(jobs[i0].job_id@),
+        pm2.dom() =~= pm0.dom().insert(key), pm2[key]@ == jobs[i0].job_id@,
+        forall|k: &'a str| k != key && #[trigger] pm0.contains_key(k) ==> pm2[k] == pm0[k],
+    ensures parts_map_ok(pm2, jobs, i0 + 1),
+{
+    broadcast use group_verif_strref_axioms;
+    broadcast use group_verif_str_axioms;
+    axiom_parts_single(jobs[i0].job_id@);
+    assert forall|k: &'a str| #[trigger] pm2.contains_key(k) implies exists|i: int| 0 <= i < i0 + 1
+            && #[trigger] jobs[i].job_id@ == pm2[k]@ && parts(jobs[i].job_id@).contains(k@) by {
+        if k == key {
+            assert(jobs[i0].job_id@ == pm2[k]@ && parts(jobs[i0].job_id@).contains(k@));
+        } else {
+            assert(pm0.contains_key(k));
+            let i = choose|i: int| 0 <= i < i0 && #[trigger] jobs[i].job_id@ == pm0[k]@ && parts(jobs[i].job_id@).contains(k@);
+            assert(jobs[i].job_id@ == pm2[k]@);
+        }
+    }
+    assert forall|i: int, p: Seq<char>| 0 <= i < i0 + 1 && #[trigger] parts(jobs[i].job_id@).contains(p)
+            implies exists|k: &'a str| #![trigger pm2.contains_key(k)] k@ == p && pm2.contains_key(k) by {
+        if i == i0 {
+            assert(p == jobs[i0].job_id@);
+            assert(pm2.contains_key(key));
+        } else {
+            let k = choose|k: &'a str| #![trigger pm0.contains_key(k)] k@ == p && pm0.contains_key(k);
+            assert(pm2.contains_key(k));
+        }
+    }
+}
+
+spec fn pm_owner<'a>(pm: Map<&'a str, String>, p: Seq<char>) -> Option<Seq<char>> {
+    if exists|k: &'a str| #![trigger pm.contains_key(k)] k@ == p && pm.contains_key(k) {
+        let k = choose|k: &'a str| #![trigger pm.contains_key(k)] k@ == p && pm.contains_key(k);
+        Some(pm[k]@)
+    } else {
+        None
+    }
+}
+
+proof fn lemma_superseded_by_owner<'a>(jobs: Seq<NodeInfo>, pm: Map<&'a str, String>, id: Seq<char>, k: &'a str)
+    requires parts_map_ok(pm, jobs, jobs.len() as int), parts(id).contains(k@), pm.contains_key(k), pm[k]@ != id,
     ensures superseded(jobs, id),
 {
-    let i = choose|i: int| 0 <= i < jobs.len() && #[trigger] jobs[i].job_id@ == pm.owner(p).unwrap() && parts(jobs[i].job_id@).contains(p);
-    assert(parts(jobs[i].job_id@).contains(p) && parts(id).contains(p) && jobs[i].job_id@ != id);
+    let i = choose|i: int| 0 <= i < jobs.len() && #[trigger] jobs[i].job_id@ == pm[k]@ && parts(jobs[i].job_id@).contains(k@);
+    assert(parts(jobs[i].job_id@).contains(k@) && parts(id).contains(k@) && jobs[i].job_id@ != id);
 }
 
-proof fn lemma_not_superseded(jobs: Seq<NodeInfo>, m: Map<String, usize>, pm: &VerifPartsMap, id: Seq<char>, s: Seq<&str>)
+proof fn lemma_not_superseded<'a>(jobs: Seq<NodeInfo>, m: Map<String, usize>, pm: Map<&'a str, String>, id: Seq<char>, s: Seq<&str>)
     requires
-        multi_parts_ok(pm, jobs), parts_disjoint(jobs), ids_wf(jobs, m),
-        forall|p: Seq<char>| #![trigger parts(id).contains(p)] parts(id).contains(p) <==> exists|k: int| 0 <= k < s.len() && (#[trigger] s[k])@ == p,
-        forall|k: int| 0 <= k < s.len() ==> !(pm.owner((#[trigger] s[k])@) is Some && pm.owner(s[k]@).unwrap() != id),
+        parts_map_ok(pm, jobs, jobs.len() as int), parts_disjoint(jobs), ids_wf(jobs, m),
+        forall|p: Seq<char>| #![trigger parts(id).contains(p)] parts(id).contains(p) <==> exists|q: int| 0 <= q < s.len() && (#[trigger] s[q])@ == p,
+        forall|q: int, k: &'a str| 0 <= q < s.len() && k@ == (#[trigger] s[q])@ && #[trigger] pm.contains_key(k) ==> pm[k]@ == id,
     ensures !superseded(jobs, id),
 {
     broadcast use group_verif_axioms;
+    broadcast use group_verif_strref_axioms;
     if superseded(jobs, id) {
         let (i, p) = choose|i: int, p: Seq<char>| 0 <= i < jobs.len() && #[trigger] parts(jobs[i].job_id@).contains(p)
             && parts(id).contains(p) && jobs[i].job_id@ != id;
-        let k = choose|k: int| 0 <= k < s.len() && (#[trigger] s[k])@ == p;
-        assert(pm.owner(p) is Some);
-        assert(pm.owner(p).unwrap() == id);
+        let q = choose|q: int| 0 <= q < s.len() && (#[trigger] s[q])@ == p;
+        let k = choose|k: &'a str| #![trigger pm.contains_key(k)] k@ == p && pm.contains_key(k);
+        assert(pm[k]@ == id);
         // then `id` itself is a present job sharing output p with the different present job i
-        let j = choose|j: int| 0 <= j < jobs.len() && #[trigger] jobs[j].job_id@ == pm.owner(p).unwrap() && parts(jobs[j].job_id@).contains(p);
+        let j = choose|j: int| 0 <= j < jobs.len() && #[trigger] jobs[j].job_id@ == pm[k]@ && parts(jobs[j].job_id@).contains(k@);
         assert(jobs[j].job_id@ != jobs[i].job_id@);
         assert(i != j);
         assert(parts(jobs[i].job_id@).contains(p));
